@@ -68,3 +68,85 @@ Theorem C15_legacy_refuted :
   debug_date_legacy (dy_of_Z two64) = two63 /\
   debug_date_of (dy_of_Z (-1)) = 0 /\ debug_date_of (dy_of_Z 0) = 0.
 Proof. repeat split; vm_compute; reflexivity. Qed.
+
+(* ---- C08 (b64a6c9): the last-bucket fallback reported in-experiment without checking that the context has the kind ---- *)
+Definition vr_result_legacy (o : opts) (c : ctx) (vr : vorr) (key salt : str) : res (er (Z * bool)) :=
+  match vr_var vr with
+  | Some v => Done (Ok (v, false))
+  | None =>
+    let ro := vr_rollout vr in
+    match ro_vars ro with
+    | [] => Done (Err EEmptyRollout)
+    | wvs =>
+      let is_exp := is_experiment_rollout ro in
+      match compute_bucket (o_secondary o) c is_exp (ro_seed ro) (ro_ctxkind ro) key (ro_bucket_by ro) salt with
+      | Err e => Done (Err e)
+      | Ok (b, fail) =>
+        let lacks := match fail with BLacksKind => true | _ => false end in
+        match scan b f32_zero wvs with
+        | Some wv => Done (Ok (wv_var wv, is_exp && negb (wv_untracked wv) && negb lacks))
+        | None => match last_opt wvs with
+                  | None => Panic
+                  | Some wv => Done (Ok (wv_var wv, is_exp && negb (wv_untracked wv)))      (* no "&& negb lacks" *)
+                  end
+        end
+      end
+    end
+  end.
+Definition exp_on_org : vorr :=
+  mkvorr None (mkrollout (s "experiment") (s "org") [mkwvar 0 0 false; mkwvar 1 0 false] ref_undef None).
+Definition no_opts : opts := mkopts false false false.
+(* a user-only context in an experiment over "org" with all-zero weights: served by the fallback; legacy says in-experiment *)
+Theorem C08_legacy_refuted :
+  vr_result_legacy no_opts (CSingle user_a) exp_on_org (s "f") (s "salt") = Done (Ok (1, true)) /\
+  vr_result no_opts (CSingle user_a) exp_on_org (s "f") (s "salt") = Done (Ok (1, false)).
+Proof. split; vm_compute; reflexivity. Qed.
+
+(* ---- C11 (8504a62): the membership cache filled while evaluating a prerequisite was dropped on return ---- *)
+Section L11.
+Variable E : env.
+Variable P : bsprov.
+Variable c : ctx.
+Let nore : str -> bool := fun _ => false.
+Let norm : str -> str -> bool := fun _ _ => false.
+Definition forget_cache {A} (m : M A) : M A :=
+  fun s => let '(r, s') := m s in (r, mkst (s_cache s) (s_status s') (s_trace s')).
+Fixpoint eval_flag_legacy (fuel : nat) (chain : list str) (f : flag) : M (detail * bool) :=
+  match fuel with
+  | O => out_of_fuel
+  | S n =>
+    if negb (f_on f) then d <- off_value no_opts f (plain_reason ROff) ;; ret (d, true)
+    else
+      p <- (match f_prereqs f with
+            | [] => ret POk
+            | ps => let chain' := chain ++ [f_key f] in
+                    prereq_loop no_opts E (fun pf => forget_cache (eval_flag_legacy n chain' pf)) f chain' ps
+            end) ;;
+      match p with
+      | PAbort => ret (err_detail KMalformed, false)
+      | PFailed k => d <- off_value no_opts f (plain_reason (RPrereqFailed k)) ;; ret (d, true)
+      | POk =>
+        match any_target_match c f with
+        | Some v => d <- get_variation no_opts f v (plain_reason RTarget) ;; ret (d, true)
+        | None => rules_loop nore norm no_opts E c (seg_contains nore norm no_opts E P c (seg_fuel E) []) f (f_rules f) 0
+        end
+      end
+  end.
+End L11.
+
+Definition big_seg : segment := mksegment (s "s0") [] [] [] [] (s "x") [] true [] 1 (Some 1) false None None.
+Definition seg_rule : rule :=
+  mkrule (mkvorr (Some 1) (mkrollout [] [] [] ref_undef None)) (s "r")
+         [mkclause [] ref_undef op_segment [JStr (s "s0")] false cpre_none] false.
+Definition mkbf (k : str) (ps : list prereq) : flag :=
+  mkflag k true ps [] [] [seg_rule] (mkvorr (Some 0) (mkrollout [] [] [] ref_undef None)) (Some 0) [JBool false; JBool true] (s "salt")
+         false false (mkfmeta 0 false false 0 false false false None None).
+Definition store11 : env := mkenv [(s "f1", mkbf (s "f1") [])] [(s "s0", big_seg)].
+Definition prov11 : bsprov := Some (fun _ => mkbsanswer (Some [(s "s0.g1", true)]) Healthy).
+Definition nqueries (s : st) : nat := List.length (filter (fun x => match x with OBsQuery _ => true | _ => false end) (s_trace s)).
+(* a flag and its prerequisite both test one big segment: the legacy evaluator asks the store twice for key "a" *)
+Theorem C11_legacy_refuted :
+  nqueries (snd (eval_flag_legacy store11 prov11 (CSingle user_a) 4 [] (mkbf (s "f0") [mkprereq (s "f1") 1]) st0)) = 2%nat /\
+  nqueries (snd (eval_flag (fun _ => false) (fun _ _ => false) no_opts store11 prov11 (CSingle user_a) 4 []
+                   (mkbf (s "f0") [mkprereq (s "f1") 1]) st0)) = 1%nat.
+Proof. split; vm_compute; reflexivity. Qed.
